@@ -558,7 +558,7 @@ def run_parallel(fn, items, procs=16):
 
 def build_services_system(video_resolution="720p (1280 x 720)", technology="php-symfony", provider="openai", model_name="gpt-3.5-turbo-1106",
                           instance_type=None, cloud_provider=None, with_plain_job=True, gpu_count=64, values=(1000, 2000, 4000, 5000, 8000, 12000, 2000, 2000, 3000),
-                          second_video=False, video_on_second=False, cloud_on_premise_fixed=None):
+                          second_video=False, video_on_second=False, cloud_on_premise_fixed=None, video_base_ram=None):
     """one system containing every builder class (cloud server, GPU server, three services with their jobs)"""
     from efootprint.builders.hardware.boavizta_cloud_server import BoaviztaCloudServer
     from efootprint.core.hardware.gpu_server import GPUServer
@@ -578,14 +578,14 @@ def build_services_system(video_resolution="720p (1280 x 720)", technology="php-
     o["cloud"] = BoaviztaCloudServer.from_defaults("cloud server", storage=o["cloud_st"], base_ram_consumption=SourceValue(1 * u.GB), **kw)
     o["gpu_st"] = Storage.ssd("gpu storage")
     o["gpu"] = GPUServer.from_defaults("gpu server", storage=o["gpu_st"], compute=SourceValue(gpu_count * u.gpu))
-    o["video"] = VideoStreaming.from_defaults("video service", server=o["cloud"])
+    o["video"] = VideoStreaming.from_defaults("video service", server=o["cloud"], **({"base_ram_consumption": SourceValue(video_base_ram * u.GB)} if video_base_ram is not None else {}))
     o["webapp"] = WebApplication("webapp service", o["cloud"], technology=SourceObject(technology))
     o["genai"] = GenAIModel.from_defaults("genai service", provider=SourceObject(provider), model_name=SourceObject(model_name), server=o["gpu"])
     if second_video or video_on_second:
         # a second video service on a second (plain) server, without any job of its own
         o["cloud2_st"] = Storage.ssd("second storage")
         o["cloud2"] = Server.from_defaults("second server", storage=o["cloud2_st"])
-        o["video2"] = VideoStreaming.from_defaults("second video service", server=o["cloud2"])
+        o["video2"] = VideoStreaming.from_defaults("second video service", server=o["cloud2"], bits_per_pixel=SourceValue(0.25 * u.dimensionless))
     o["video_job"] = VideoStreamingJob.from_defaults("video job", service=o["video2"] if video_on_second else o["video"], resolution=SourceObject(video_resolution), video_duration=SourceValue(20 * u.min))
     o["webapp_job"] = WebApplicationJob.from_defaults("webapp job", service=o["webapp"])
     o["genai_job"] = GenAIJob("genai job", o["genai"], output_token_count=SourceValue(1000 * u.dimensionless))
